@@ -27,6 +27,7 @@ CONSTANTS U,          \* bits per unit
           HookVals,   \* {TRUE} or {TRUE, FALSE}: specs whose setup function rejects
           MinW,       \* only specs whose mask has at least this many bits (deep trees need heavy masks)
           CallExtra,  \* units by which maxlen is raised after construction (x86: 15 > longest spec), LE only
+          AnyN,       \* 0, or: on tables of exactly AnyN specs also quantify over ARBITRARY one-level trees (AnySound)
           Dev,        \* seeded faults
           Gen         \* print behaviours at MaxSpecs
 
@@ -65,10 +66,35 @@ StructOn(T) == LET pb == PBuild IN
                /\ PartitionAll(specs, T)
                /\ LeafOrderW(specs, T, pb)
                /\ LeafOrderStable(specs, T)
+               /\ ListSort(specs, All) = ListSortDef(specs, All)
 Equiv  == Len(specs) >= 1 => EquivOn(Tree)
 Struct == Len(specs) >= 1 => StructOn(Tree)
 (* both at once (the tree is built once per table) *)
 Inv == Len(specs) >= 1 => LET T == Tree IN EquivOn(T) /\ StructOn(T)
+
+(* Why checking Routing / Partition / LeafOrder on a REAL tree is meaningful: on every table of AnyN   *)
+(* specs, EVERY one-level tree (any test mask f, any assignment of specs to keys, any leaf order) that  *)
+(* satisfies the structural clauses answers like the scan - exactly, if its leaves are in stable order; *)
+(* up to the choice among equally constrained accepting specs, if only the weight order holds.          *)
+Perms(X) == {p \in [1..Cardinality(X) -> X] : \A i, j \in 1..Cardinality(X) : i # j => p[i] # p[j]}
+AnyTrees ==
+  LET n == Len(specs)
+      bits == 0..(MaxLen * U - 1)
+      TreesFor(f, a) ==
+        LET keys == {a[i] : i \in 1..n}
+            LeavesFor(x) == {Leaf(p) : p \in Perms({i \in 1..n : a[i] = x})}
+        IN {Node(f, kid) : kid \in {k \in [keys -> UNION {LeavesFor(x) : x \in keys}] : \A x \in keys : k[x] \in LeavesFor(x)}}
+  IN {Leaf(p) : p \in Perms(1..n)}
+     \cup UNION {UNION {TreesFor(f, a) : a \in [1..n -> SUBSET f]} : f \in (SUBSET bits) \ {{}}}
+AnySound ==
+  (AnyN > 0 /\ Len(specs) = AnyN) =>
+    LET pb == PBuild  call == PCall  ord == AllSorted(specs) IN
+    \A T \in AnyTrees :
+       (Routing(specs, T, pb) /\ PartitionAll(specs, T)) =>
+          /\ LeafOrderStable(specs, T) => \A w \in Words : Lookup(specs, T, w, call) = FirstIn(specs, ord, w, call)
+          /\ LeafOrderW(specs, T, pb) => \A w \in Words :
+                LET a == Lookup(specs, T, w, call)  b == FirstIn(specs, ord, w, call)
+                IN (a = 0 <=> b = 0) /\ (a # 0 => Accepts(specs[a], w, call) /\ HW(specs[a]) = HW(specs[b]))
 
 -----------------------------------------------------------------------------
 (* G: the table as real format strings, direction '>' (LSB first):          *)
